@@ -77,6 +77,16 @@ claim("C18",
       "TLA+ spec ECDSA : TLC exhaustive accept set on tiny curves, C->S trace validation, OpenSSL / RFC 6979 oracle relations", "DESIGN.md section 4 C18, section 6")
 
 
+claim("C11",
+      "TLC exhausts every operation sequence (set configuration x3, derive comments x3, derive auth blocks in both modes, append/insert firmware with/without TYPE tag, write+read back) up to the bound on the object model: at most one configuration component, last and latest after set_config, firmware untouched and in order, derived comments a function of the latest configuration, other comments untouched, blocks derived from empty, one block per kind; TLC's complete state graph is dumped and EVERY PATH is walked on real Bf3File/Bec2File objects with the projected state compared after each operation.",
+      "Trusted: TLC; concretisation gamma = what a fresh object gives for each configuration (history independence is the claim); three representative configurations.",
+      "TLA+ spec ObjModel : TLC exhaustive over histories, S->C walk of every path of the state graph on the real objects", "DESIGN.md section 4 C11")
+claim("C19",
+      "TLC exhausts DER on bounded instances (every byte string up to a length over a reduced alphabet; bounded TLV trees with long-form lengths): prefix-freeness, no valid extension, minimal length forms, totality; derives the 27-byte P-256 header from EncodeSPKI; real encodings of all 17 curves x formats are structure-validated / recomputed by TLC, round-tripped, and related byte-for-byte to OpenSSL in both directions; every truncation, extension and (sampled: quick / all positions: thorough) single-byte mutation of valid encodings goes through the six decoders and TLC judges rejection of truncations/extensions and the documented-error rule.",
+      "Trusted: TLC; OpenSSL for bytes and on-curve decisions (oracle relation); OIDs and field sizes transcribed from SEC 2 / RFC 5480 / RFC 5639. Open known findings: PKCS#8 version octet; SECP112r2 subgroup check.",
+      "TLA+ specs DER/KeyEnc : TLC exhaustive on bounded instances, C->S trace validation of real encoders/decoders, OpenSSL oracle relation", "DESIGN.md section 4 C19, section 6")
+
+
 def main():
     props = [json.loads(l) for l in open(os.path.join(VERIF, "properties.jsonl"))]
     m = {"version": 1,
